@@ -190,7 +190,7 @@ def run_property(pid, tier, jobs, verbose=False, record_baseline=False):
     if baseline is not None:
         still = []
         for o in undecided:
-            if clause_id(o["id"]) in baseline:
+            if clause_id(o["id"]) in baseline and not o.get("no_regress"):
                 hit = None
                 for f in kf:
                     if f.get("status") == "known" and re.search(f["obligation"], o["id"]):
